@@ -138,8 +138,20 @@ def _pair_histories(tier):
     return out
 
 
+def _extra_cli_cases():
+    """seed-independent batches around the state-carrying / control-character files, each also fed through --stdin"""
+    extra = [f for f in corpus.files() if "corpus_extra" in f]
+    fixt = [f for f in PAIR_FILES if f in corpus.files()]
+    out = []
+    for i, e in enumerate(extra):
+        for p in (1, 2):
+            out.append({"k": "cli", "files": [e, fixt[i % len(fixt)], fixt[(i + 3) % len(fixt)]], "bad": None, "p": p, "fix": False, "perm": 0, "style": None, "stdin": True, "keep_order": True})
+        out.append({"k": "cli", "files": [fixt[(i + 1) % len(fixt)], e], "bad": None, "p": 2, "fix": True, "perm": 0, "style": None, "stdin": False, "keep_order": True})
+    return out
+
+
 def fixed_cases(tier):
-    out = _pair_histories(tier)
+    out = _pair_histories(tier) + _extra_cli_cases()
     n_hist = 16 if tier == "quick" else 64
     for i in range(n_hist):
         out.append({"k": "hist", "hseed": i, "examples": 6 if tier == "quick" else 25, "steps": 8 if tier == "quick" else 14})
@@ -420,8 +432,9 @@ def _cli(case, tier):
         texts = [open(corpus.path(f), "rb").read() for f in case["files"]]
         if case.get("bad"):
             texts.append(b"\nentity e is\n  port (a : in bit\nend entity e;;\n")
-        rnd = random.Random(case["perm"])
-        rnd.shuffle(texts)
+        if not case.get("keep_order"):
+            rnd = random.Random(case["perm"])
+            rnd.shuffle(texts)
     else:
         texts = [t.encode("latin-1") for t in texts]
     names = ["f%d.vhd" % i for i in range(len(texts))]
